@@ -64,6 +64,61 @@ def floor_form(ctx, p, rule, cb, want_rho=True, value=None, rho_is=None):
     return True
 
 
+def candidate_filtered(fl, tgt):
+    """hand-written arg-min: the decremented element is `unwrap(best).0` (or `(best as Some).0.0`)
+    where every `best = Some((elem, ..))` assignment is dominated by `*elem > 1`"""
+    from ..expr import alternatives
+    eb = ExprBuilder(fl)
+    # the Option local the element reference is taken from
+    cand = None
+    for x in walk(tgt):
+        if x[0] == "call" and x[1].endswith("Option::<T>::unwrap") and x[2] and x[2][0][0] == "var" and isinstance(x[2][0][1], int):
+            cand = x[2][0][1]
+        if x[0] == "variant" and x[2] == "Some" and x[1][0] == "var" and isinstance(x[1][1], int):
+            cand = x[1][1]
+    if cand is None:
+        # var nodes may carry the name instead of the local number
+        for x in walk(tgt):
+            if x[0] == "var":
+                for l, d in enumerate(fl.locals):
+                    if (d.get("name") == x[1] or l == x[1]) and str(d.get("ty", "")).startswith("std::option::Option<(&mut usize"):
+                        cand = l
+    if cand is None:
+        return False
+    somes = 0
+    work = [(d, 0) for d in fl.defs().get(cand, [])]
+    while work:
+        (dbb, di, item), depth = work.pop()
+        if fl.is_cleanup(dbb) or di == "term":
+            continue
+        rv = item["rv"]
+        if rv["k"] == "aggregate" and rv["kind"].get("variant") == "None":
+            continue
+        if rv["k"] == "use" and rv["op"].get("k") in ("move", "copy") and not rv["op"]["place"]["proj"] and depth < 4:
+            work.extend((d, depth + 1) for d in fl.defs().get(rv["op"]["place"]["local"], []))
+            continue
+        if not (rv["k"] == "aggregate" and rv["kind"].get("variant") == "Some"):
+            return False
+        e = eb.at(dbb, di).rvalue(rv)
+        pay = e[2][0] if e[0] == "agg" and e[2] else None
+        elem = pay[2][0] if pay is not None and pay[0] == "agg" and pay[1] == "tuple" and pay[2] else pay
+        if elem is None:
+            return False
+        es = show(elem)
+        good = False
+        for g in paths.guards(fl, dbb, eb):
+            if g[0] in ("true", "false"):
+                pos, c = paths.bool_atoms(g)
+                if c[0] == "bin" and show(c[2]) == es and c[3][0] == "c" and isinstance(c[3][1], int):
+                    k = c[3][1]
+                    if (c[1] == "Gt" and pos and k >= 1) or (c[1] == "Ge" and pos and k >= 2) or (c[1] == "Le" and not pos and k >= 1) or (c[1] == "Lt" and not pos and k >= 2):
+                        good = True
+        if not good:
+            return False
+        somes += 1
+    return somes >= 1
+
+
 def run(ctx):
     ctx.rule("C08-R1", "speed-1 law: create() returns estimate_duration(parameters, 0.0) unless speed != 1.0; each element is cast(max(round(mean + rho*vari), 1))")
     ctx.rule("C08-R2", "target length = cast(max(round(sum(speed-1 durations) / speed), 1))")
@@ -256,11 +311,17 @@ def r234(ctx, p, fl):
         ctx.fail("C08-R3", fl.path, "fallback", "no `target <= size => vec![1; size]` early return found", fl.loc())
 
     # ---- R4
-    loops = fl.natural_loops()
+    all_loops = fl.natural_loops()
+    # the greedy loop is the outermost one; hand-written candidate searches may be nested in it
+    loops = [(h_, lb_) for h_, lb_ in all_loops if not any(h2 != h_ and h_ in lb2 for h2, lb2 in all_loops)]
     if len(loops) != 1:
-        ctx.fail("C08-R4", fl.path, "loop", "expected one loop in estimate_duration_with_frame_length, found %d" % len(loops), fl.loc())
+        ctx.fail("C08-R4", fl.path, "loop", "expected one (outermost) loop in estimate_duration_with_frame_length, found %d" % len(loops), fl.loc())
         return
     h, lb = loops[0]
+    inner_blocks = set()
+    for h2, lb2 in all_loops:
+        if h2 != h:
+            inner_blocks |= set(lb2)
     # exits
     exits = []
     for b in lb:
@@ -275,13 +336,30 @@ def r234(ctx, p, fl):
         real_exits.append((b, s))
     sumvar = None
     okexit = True
+    cmp_order = None
     for b, s in real_exits:
         t = fl.blocks[b]["term"]
         if t["k"] != "switch":
             okexit = False
             continue
         d = eb.at(b).op(t["discr"])
-        if d[0] == "bin" and d[1] in ("Ne", "Eq"):
+        if d[0] == "discr" and d[1][0] == "call" and d[1][1].endswith("::cmp") and "Ord" in d[1][1] and len(d[1][2]) == 2:
+            # match sum.cmp(&target) { Equal => break, .. }
+            sides = list(d[1][2])
+            names = [show(x) for x in sides]
+            if tcanon in names:
+                other = sides[1 - names.index(tcanon)]
+                if other[0] == "var":
+                    sumvar = other
+                val = [v for v, tg in list(t["targets"]) + [(None, t["otherwise"])] if tg == s]
+                listed = [v for v, tg in t["targets"]]
+                eq_exit = val == [0] or (val == [None] and 0 not in listed and len(listed) == 2)
+                if not eq_exit:
+                    okexit = False
+                cmp_order = names.index(tcanon)     # 1: cmp(sum, target); 0: cmp(target, sum)
+            else:
+                okexit = False
+        elif d[0] == "bin" and d[1] in ("Ne", "Eq"):
             sides = [d[2], d[3]]
             names = [show(x) for x in sides]
             if tcanon in names:
@@ -346,6 +424,19 @@ def r234(ctx, p, fl):
         # polarity of the Gt(target,sum) guard
         pol_ = None
         for g in paths.guards(fl, u[2], ExprBuilder(fl)):
+            if g[0] == "variant" and cmp_order is not None and isinstance(g[1], tuple) and g[1][0] == "call" and g[1][1].endswith("::cmp") and len(g) > 2:
+                v_ = g[2]
+                if isinstance(v_, tuple) and v_ and v_[0] == "not":
+                    rest_ = [x for x in (255, 0, 1) if x not in [y % 256 for y in v_[1]]]
+                    v_ = rest_[0] if len(rest_) == 1 else None
+                if isinstance(v_, int):
+                    v_ = v_ % 256
+                    first_less = v_ == 255          # first argument < second
+                    first_greater = v_ == 1
+                    if first_less or first_greater:
+                        # cmp(sum, target): Less => target > sum
+                        sum_less = first_less if cmp_order == 1 else first_greater
+                        pol_ = "target>sum" if sum_less else "target<sum"
             if g[0] in ("true", "false"):
                 pos, c = paths.bool_atoms(g)
                 if c[0] == "bin" and c[1] in ("Gt", "Lt", "Ge", "Le"):
@@ -386,6 +477,8 @@ def r234(ctx, p, fl):
                         if (r[1] == "Gt" and r[3][1] >= 1) or (r[1] == "Ge" and r[3][1] >= 2):
                             if root_of(r[2])[0][0] == "arg":
                                 okf = True
+                if not okf:
+                    okf = candidate_filtered(fl, tgt)
                 if okf:
                     ctx.ok("C08-R4", "the decrement candidate set is filtered by `duration > 1`", cm.loc_of(st["span"]))
                 else:
